@@ -61,7 +61,9 @@ TRule ==
          tgt == TargetOf(run.premium)
          isKnown == e.known # ""
          cardFails ==
-            When(e.validPair /\ ((e.api.ok /\ e.cardAfter = e.api.css) \/ \E j \in 1..Len(e.apiAlt) : e.cardAfter = e.apiAlt[j]),
+            \* (apiAlt: the API's answers for the pair as the tool met it when an EARLIER adjusted rule had re-tuned, in place, the
+            \*  custom property this rule references - also when the property did not resolve at all before that)
+            When((e.validPair /\ e.api.ok /\ e.cardAfter = e.api.css) \/ \E j \in 1..Len(e.apiAlt) : e.cardAfter = e.apiAlt[j],
                  "C08_CardIsApiResult")
             \cup (IF e.cardAfter # <<>> /\ e.bg # <<>> /\ Meets(e.cardAfter, e.bg, tgt) = "LT" THEN {"C08_CardMeetsTarget"} ELSE {})
             \cup When(e.cardAfter # <<>>, "C08_CardColourUnreadable")
